@@ -467,11 +467,26 @@ impl<'a> Interp<'a> {
                         }
                     }
                     // the server notices the closed connection in that connection's task
+                    // (it first drops the client from its client table and then leaves the groups one by one:
+                    // wait for the table AND for the groups' member counts, up to 20 s on a loaded machine;
+                    // what is still wrong after that is judged by the snapshot comparison)
                     let want = 1 + self.extra.len();
-                    let deadline = std::time::Instant::now() + std::time::Duration::from_secs(2);
+                    let deadline = std::time::Instant::now() + std::time::Duration::from_secs(20);
                     loop {
                         let cnt = n.block_on(async { self.tcp.as_ref().unwrap().get_clients().await }).map(|v| v.iter().filter(|c| c.transport.to_lowercase() == "tcp").count()).unwrap_or(0);
-                        if cnt <= want || std::time::Instant::now() > deadline {
+                        let mut groups_ok = true;
+                        for st in self.streams.values() {
+                            for t in st.topics.values() {
+                                for g in t.groups.values() {
+                                    let (si, ti, gi) = (Identifier::numeric(st.id).unwrap(), Identifier::numeric(t.id).unwrap(), Identifier::numeric(g.id).unwrap());
+                                    let mc = n.block_on(async { self.tcp.as_ref().unwrap().get_consumer_group(&si, &ti, &gi).await }).ok().flatten().map(|d| d.members_count as usize);
+                                    if mc.is_some() && mc != Some(g.members.len()) {
+                                        groups_ok = false;
+                                    }
+                                }
+                            }
+                        }
+                        if (cnt <= want && groups_ok) || std::time::Instant::now() > deadline {
                             break;
                         }
                         n.settle(2);
